@@ -245,7 +245,7 @@ pub fn dijkstra_case(g: &WG, d: &WU, srcs: &[usize], ctx: &mut Ctx) {
         sm |= 1 << s;
     }
     let dist = g.dist(sm);
-    let det = || json!({"digraph": g.json(), "sources_in_order": srcs, "reference_distances": dist.iter().take(g.n).map(|&x| if x == INF { json!("unreachable") } else { json!(x as i64) }).collect::<Vec<_>>()});
+    let det = || json!({"digraph": g.json(), "sources_in_order": srcs, "reference_distances": dist.iter().take(g.n).map(|&x| if x == INF { json!("unreachable") } else if x > i64::MAX as i128 { json!(x.to_string()) } else { json!(x as i64) }).collect::<Vec<_>>()});
     ctx.exec();
     match guarded(|| Dijkstra::new(d, srcs.to_vec().into_iter()).collect::<Vec<usize>>()) {
         Err(e) => ctx.fail(format!("Dijkstra panicked: {e}"), det()),
@@ -367,11 +367,14 @@ static A13: [i64; 2] = [1, 3];
 static A013: [i64; 3] = [0, 1, 3];
 /// weights beyond 32 bits: a narrowing cast or a 32-bit accumulator would show
 static ABIG: [i64; 3] = [1, (1 << 32) + 1, 1 << 40];
+// weights around 2^62: at order 3 every tentative distance (two settled arcs plus one more) stays
+// below 2^64 while two-arc walks exceed isize::MAX (casts to a signed type become visible)
+static AHUGE: [i64; 3] = [1, 1 << 62, (1 << 62) + 1];
 static A1: [i64; 1] = [1];
 
 pub fn c03(tier: &str, seed: u64) -> Check {
     let thorough = tier == "thorough";
-    let mut spaces = vec![c03_space(1, &A0125, 99, 1), c03_space(2, &A0125, 99, 2), c03_space(3, &A0125, 99, 3), c03_space(4, &A13, 99, 4), c03_space(3, &ABIG, 99, 3), c03_space(4, &ABIG, 5, 2)];
+    let mut spaces = vec![c03_space(1, &A0125, 99, 1), c03_space(2, &A0125, 99, 2), c03_space(3, &A0125, 99, 3), c03_space(4, &A13, 99, 4), c03_space(3, &ABIG, 99, 3), c03_space(4, &ABIG, 5, 2), c03_space(3, &AHUGE, 99, 3)];
     if thorough {
         spaces.push(c03_space(4, &A013, 99, 4));
         spaces.push(c03_space(5, &A13, 7, 1));
@@ -385,7 +388,7 @@ pub fn c03(tier: &str, seed: u64) -> Check {
         tier,
         seed,
         "bounded-exhaustive: every AdjacencyListWeighted<usize> digraph of order ≤ 3 with weights {0,1,2,5}, order 4 with weights {1,3} (all 3^12), order 4 with {0,1,3} (≤ 6 arcs quick / all 4^12 thorough), order 5 with ≤ 7 arcs (thorough) × every subset of sources in both orders; Dijkstra and DijkstraDist item streams (each reachable vertex once, none unreachable, non-decreasing true distance, exact item distance) and distances() against distances from |V|-1 rounds of set relaxation in i128. Ties are accepted in any order. Beyond exhaustive reach: a fixed catalogue of 17 structured shapes × 4 weight patterns at orders 6..11 (up to 110 arcs), every single source and six source sets. Non-trivial: a lazy-deletion heap simulated on the reference pops a superseded entry before the last reachable vertex is settled.",
-        &["weights from small alphabets plus one alphabet beyond 32 bits {1, 2^32+1, 2^40}: path sums never approach usize::MAX", "sources distinct and in range"],
+        &["weights from small alphabets plus {1, 2^32+1, 2^40} and, at order 3, {1, 2^62, 2^62+1} (two-arc walks exceed isize::MAX; no tentative sum reaches 2^64)", "sources distinct and in range"],
         json!({"alphabets": {"n<=3": [0,1,2,5], "n=4": [[1,3],[0,1,3]]}}),
     );
     Check { spaces, report, post: None }
@@ -719,6 +722,7 @@ pub fn c05(tier: &str, seed: u64) -> Check {
     }
     spaces.push(c05_dij_space(2, &A0125, 2));
     spaces.push(c05_dij_space(3, &ABIG, 3));
+    spaces.push(c05_dij_space(3, &AHUGE, 3));
     spaces.push(c05_dij_space(3, &A0125, 3));
     spaces.push(c05_dij_space(4, &A13, if thorough { 4 } else { 1 }));
     if thorough {
@@ -746,7 +750,7 @@ static AM3: [i64; 3] = [-1, 0, 2];
 static AMBIG: [i64; 4] = [-(1 << 40), 1, (1 << 33) + 3, 1 << 41];
 
 fn fmt_d(d: &[i128; NMAX], n: usize) -> Vec<Value> {
-    d.iter().take(n).map(|&x| if x == INF { json!("unreachable") } else { json!(x as i64) }).collect()
+    d.iter().take(n).map(|&x| if x == INF { json!("unreachable") } else if x > i64::MAX as i128 { json!(x.to_string()) } else { json!(x as i64) }).collect()
 }
 
 fn c07_case(g: &WG, ctx: &mut Ctx) {
